@@ -16,6 +16,7 @@ type loopInfo struct {
 	ordinal int
 	spec    *LoopSpec
 	rangeIx *ssa.Alloc
+	rangeInt *ssa.Alloc // hidden counter of a range-over-int loop
 	headState *State
 }
 
@@ -56,6 +57,7 @@ type Frame struct {
 	backStates map[*ssa.BasicBlock][]*State
 	siteOrd   map[*ssa.CallCommon]int // ordinal of a call site among the calls of the same callee, in source order
 	stackIDs  []Term                  // object ids of this activation's non-escaping local aggregates
+	curBlock  *ssa.BasicBlock
 }
 
 func (fr *Frame) oblName(n string) string {
@@ -88,18 +90,31 @@ func (fr *Frame) safety(st *State, kind string, goal Term, pos token.Pos, descr 
 	fr.fc.addObligation(st, "safety", fr.oblName(name), goal, pos, descr)
 }
 
-func (fr *Frame) allocByName(name string) *ssa.Alloc {
-	var found *ssa.Alloc
+// allocByName resolves a source variable name to its storage. With several variables of that
+// name in the function, the one declared latest among those whose declaration dominates the
+// program point 'at' is chosen (that is the one in scope there).
+func (fr *Frame) allocByName(name string, at *ssa.BasicBlock) *ssa.Alloc {
+	var first, best *ssa.Alloc
 	for _, b := range fr.fn.Blocks {
 		for _, in := range b.Instrs {
-			if a, ok := in.(*ssa.Alloc); ok && a.Comment == name {
-				if found == nil {
-					found = a
+			a, ok := in.(*ssa.Alloc)
+			if !ok || a.Comment != name {
+				continue
+			}
+			if first == nil {
+				first = a
+			}
+			if at != nil && b.Dominates(at) {
+				if best == nil || a.Pos() > best.Pos() {
+					best = a
 				}
 			}
 		}
 	}
-	return found
+	if best != nil {
+		return best
+	}
+	return first
 }
 
 func (fr *Frame) loadAlloc(st *State, a *ssa.Alloc) Term {
@@ -206,6 +221,11 @@ func findLoops(fn *ssa.Function) map[*ssa.BasicBlock]*loopInfo {
 			if s, ok := in.(*ssa.Store); ok {
 				if a, ok := s.Addr.(*ssa.Alloc); ok && a.Comment == "rangeindex" {
 					loops[h].rangeIx = a
+				}
+			}
+			if u, ok := in.(*ssa.UnOp); ok && u.Op == token.MUL {
+				if a, ok := u.X.(*ssa.Alloc); ok && a.Comment == "rangeint.iter" {
+					loops[h].rangeInt = a
 				}
 			}
 		}
@@ -425,13 +445,18 @@ func (fr *Frame) runBody(st *State) (*State, []Term, bool) {
 }
 
 func (fr *Frame) invEnv(li *loopInfo, st *State) *Env {
-	env := &Env{fc: fr.fc, fr: fr, st: st, old: fr.top().entry, vars: map[string]Term{}, pkgName: fr.fn.Pkg.Pkg.Name()}
+	env := &Env{fc: fr.fc, fr: fr, st: st, old: fr.top().entry, vars: map[string]Term{}, pkgName: fr.fn.Pkg.Pkg.Name(), at: li.head}
 	for k, v := range fr.params {
 		env.vars["old$"+k] = v
 	}
 	if li.rangeIx != nil {
 		if v, ok := st.locals[li.rangeIx]; ok {
 			env.vars["$i"] = mk(fmt.Sprintf("(+ %s 1)", v.S), SInt, types.Typ[types.Int])
+		}
+	}
+	if li.rangeInt != nil {
+		if v, ok := st.locals[li.rangeInt]; ok {
+			env.vars["$i"] = v
 		}
 	}
 	return env
@@ -623,6 +648,7 @@ func (fc *FnCtx) heapAxioms(v Term, c string, bound Term) {
 
 func (fr *Frame) execBlock(b *ssa.BasicBlock, st *State, in map[*ssa.BasicBlock][]*State) {
 	fc := fr.fc
+	fr.curBlock = b
 	for _, instr := range b.Instrs {
 		switch x := instr.(type) {
 		case *ssa.If:
